@@ -25,7 +25,7 @@ func runC02(c *mon.Ctx) {
 	nb, na := base, base.Add(2*time.Hour)
 	certFor := func(name string, serial int64) *sim.Cert { return sim.Mint(sim.K(name), nb, na, serial) }
 	kinds := []string{"sso-resp", "sso-assert", "sso-bad-resp-over-good-assertions", "logout-req", "logout-resp"}
-	signers := []string{"member", "member", "member", "untrusted", "foreign-key", "same-key-other-cert", "no-keyinfo", "no-keyinfo", "twin-member", "mixed-validity-store"}
+	signers := []string{"member", "member", "member", "untrusted", "foreign-key", "same-key-other-cert", "no-keyinfo", "no-keyinfo", "twin-member", "mixed-validity-store", "renewed-same-key"}
 	clocks := []struct {
 		name   string
 		t      time.Time
@@ -57,6 +57,7 @@ func runC02(c *mon.Ctx) {
 		var signKey *sim.Key
 		inStore := false
 		mixedNoKI := false
+		alwaysInside := false
 		switch sg {
 		case "mixed-validity-store":
 			// roll-over store whose other members are expired / not yet valid at every probed clock position;
@@ -89,6 +90,25 @@ func runC02(c *mon.Ctx) {
 			signCert = store[r.IntN(len(store))]
 			signKey = signCert.Key
 			inStore = true
+		case "renewed-same-key":
+			// the IdP renewed its certificate without re-keying: the store holds two different certificates over one
+			// key (in either order, perhaps next to another member); each vouches by identity within its own window
+			kx := sim.K(keyNames[perm[0]])
+			cur := sim.Mint(kx, nb, na, 10)
+			long := sim.Mint(kx, nb.AddDate(-1, 0, 0), na.AddDate(1, 0, 0), 14) // valid at every probed clock position
+			store = []*sim.Cert{cur, long}
+			if r.IntN(2) == 0 {
+				store = []*sim.Cert{long, cur}
+			}
+			if r.IntN(3) == 0 {
+				store = append(store, certFor(keyNames[perm[1]], 10))
+			}
+			storeSize = len(store)
+			signCert, signKey, inStore = cur, kx, true
+			if r.IntN(3) == 0 {
+				signCert, alwaysInside = long, true
+			}
+			mixedNoKI = r.IntN(4) == 0
 		case "member", "no-keyinfo":
 			if storeSize == 0 || r.IntN(5) == 0 {
 				// the signer's certificate is not in the store
@@ -126,7 +146,7 @@ func runC02(c *mon.Ctx) {
 		spec := randSigSpec(r, signCert, true, sg == "no-keyinfo" || mixedNoKI)
 		spec.Key = signKey
 		spec.NSCharRef = r.IntN(4) == 0 // the XML-DSig namespace URI spelled with a character reference everywhere
-		honour := inStore && signKey == signCert.Key && clk.inside && tamper == "none" && sg != "same-key-other-cert" && sg != "untrusted"
+		honour := inStore && signKey == signCert.Key && (clk.inside || alwaysInside) && tamper == "none" && sg != "same-key-other-cert" && sg != "untrusted"
 		if sg == "no-keyinfo" || mixedNoKI {
 			honour = honour && storeSize == 1
 		}
@@ -291,6 +311,7 @@ func runC02(c *mon.Ctx) {
 	}
 
 	runStoreRotation(c, c.N(400, 10000), nb, na, kinds)
+	runStoreRollover(c, c.N(200, 5000), nb, kinds)
 
 	// ---- one long-lived SP whose clock moves across the signing certificate's window ----
 	nw := c.N(300, 10000)
@@ -422,6 +443,109 @@ func runStoreRotation(c *mon.Ctx, nr int, nb, na time.Time, kinds []string) {
 			cs.Violation("new-certificate-not-honoured:"+kind, "after the store was rotated (%s) a message signed with the new store member is rejected", how)
 		default:
 			cs.Outcome("rotation-respected:" + how)
+		}
+	}
+}
+
+// runStoreRollover: a stock in-memory store lists the outgoing and the incoming certificate of a planned key
+// roll-over (in either order, perhaps next to a third member); one long-lived SP validates while its clock moves
+// back and forth across the hand-over instant. Each certificate vouches exactly inside its own window, every
+// time, and validation leaves the caller's store as configured (shared by C02 and C08).
+func runStoreRollover(c *mon.Ctx, n int, t0 time.Time, kinds []string) {
+	mid := t0.Add(time.Hour)
+	for k := 0; k < n; k++ {
+		cs := c.Begin("store-rollover", k)
+		if cs == nil {
+			continue
+		}
+		r := cs.Rand()
+		names := []string{"idp1", "idp2", "idp3"}
+		p := r.Perm(3)
+		out := sim.Mint(sim.K(names[p[0]]), t0.Add(-time.Hour), mid, 31)
+		in := sim.Mint(sim.K(names[p[1]]), mid, t0.Add(3*time.Hour), 32)
+		roots := []*x509.Certificate{out.X509, in.X509}
+		if r.IntN(2) == 0 {
+			roots = []*x509.Certificate{in.X509, out.X509}
+		}
+		if r.IntN(3) == 0 {
+			roots = append(roots, sim.Mint(sim.K(names[p[2]]), t0.Add(-time.Hour), t0.Add(3*time.Hour), 33).X509)
+		}
+		configured := append([]*x509.Certificate{}, roots...)
+		store := &dsig.MemoryX509CertificateStore{Roots: roots}
+		sp, clk, _ := NewSP(t0, out)
+		sp.IDPCertificateStore = store
+		kind := kinds[k%len(kinds)]
+		if kind == "sso-bad-resp-over-good-assertions" {
+			kind = "sso-assert"
+		}
+		var trace []string
+		bad := false
+		steps := 3 + r.IntN(4)
+		for i := 0; i < steps && !bad; i++ {
+			before := (i+k)%2 == 0
+			now := t0.Add(time.Duration(1+r.IntN(3500)) * time.Second)
+			if !before {
+				now = mid.Add(time.Duration(1+r.IntN(3500)) * time.Second)
+			}
+			clk.Set(now)
+			w := NewWorld(now)
+			for _, signer := range []*sim.Cert{out, in} {
+				spec := sim.DefaultSig(signer.Key, signer)
+				var doc string
+				switch kind {
+				case "logout-req", "logout-resp":
+					l := sim.GenuineLogout(w.Env, kind == "logout-resp")
+					l.Sig = spec
+					doc, _ = sim.BuildLogout(l, sim.PlainStyle())
+				default:
+					rec := sim.GenuineResponse(w.Env, 1)
+					if kind == "sso-resp" {
+						rec.Sig = spec
+					} else {
+						rec.Assertions[0].Sig = spec
+					}
+					doc, _ = sim.BuildResponse(rec, sim.PlainStyle())
+				}
+				enc := sim.Encode(doc, sim.RawLevel)
+				var err error
+				if kind == "logout-req" || kind == "logout-resp" {
+					_, err = callLogout(sp, kind == "logout-resp", enc)
+				} else {
+					_, err = sp.ValidateEncodedResponse(enc)
+				}
+				want := (signer == out) == before
+				who := map[bool]string{true: "outgoing", false: "incoming"}[signer == out]
+				trace = append(trace, fmt.Sprintf("%s@%s:%v", who, map[bool]string{true: "before", false: "after"}[before], err == nil))
+				if len(store.Roots) != len(configured) {
+					bad = true
+					cs.Violation("store-modified:"+kind, "validation changed the caller's certificate store: %d roots, configured %d (trace %v)", len(store.Roots), len(configured), trace)
+					break
+				}
+				for j := range configured {
+					if store.Roots[j] != configured[j] {
+						bad = true
+						cs.Violation("store-modified:"+kind, "validation changed the caller's certificate store: entry %d replaced (trace %v)", j, trace)
+						break
+					}
+				}
+				if bad {
+					break
+				}
+				if (err == nil) != want {
+					bad = true
+					key := "trusted-signature-not-honoured:"
+					if err == nil {
+						key = "certificate-outside-window-honoured:"
+					}
+					cs.Violation(key+kind, "step %d: %s certificate, clock %s the hand-over, accepted=%v want %v (trace %v, err %v)", i, who, map[bool]string{true: "before", false: "after"}[before], err == nil, want, trace, err)
+					break
+				}
+			}
+		}
+		cs.Desc("kind=%s roots=%d trace=%v", kind, len(configured), trace)
+		cs.Nontrivial(fmt.Sprintf("%v/%d", trace, k))
+		if !bad {
+			cs.Outcome("each-certificate-within-its-window")
 		}
 	}
 }
